@@ -98,7 +98,7 @@ def gen_case(rng, tier):
             if rng.random() < 0.7:
                 tests.append(["inseq", ["ref", c], [["lit", rng.randint(-3, 3)] for _ in range(rng.randint(1, 3))], rng.choice(["list", "tuple"])])
             else:
-                tests.append(["inrange", ["ref", c], exprs.gen_range(rng, True)])
+                tests.append(["inrange", ["ref", c], exprs.gen_range(rng, True), rng.choice(["factory", "ctor"])])
         if rng.random() < 0.4:
             tests[-1] = ["not", tests[-1]]
         return {"kind": "pred", "ast": [rng.choice(["and", "or"]), tests, rng.choice(["ctor", "factory"])], "k": k}
@@ -278,13 +278,15 @@ def run_shard(seed, wid, nworkers, tier):
     for start in range(-6, 8):
         for stop in range(-6, 8):
             for step in (-5, -3, -2, -1, 1, 2, 3, 5):
-                ast = ["inrange", ["ref", "a"], [start, stop, step]]
-                sub = {"counters": {}, "violations": []}
-                compare("pred", ast, tags, rows, payload, sub, exprs.show_p(ast))
-                n += 1
-                for key, v in sub["counters"].items():
-                    out["counters"][key] = out["counters"].get(key, 0) + v
-                out["violations"].extend(dict(v, case={"kind": "pred", "ast": ast, "k": 1, "probe": True}) for v in sub["violations"])
+                # both public construction routes: the factory and the dataclass constructor
+                for route in ("factory", "ctor"):
+                    ast = ["inrange", ["ref", "a"], [start, stop, step], route]
+                    sub = {"counters": {}, "violations": []}
+                    compare("pred", ast, tags, rows, payload, sub, exprs.show_p(ast))
+                    n += 1
+                    for key, v in sub["counters"].items():
+                        out["counters"][key] = out["counters"].get(key, 0) + v
+                    out["violations"].extend(dict(v, case={"kind": "pred", "ast": ast, "k": 1, "probe": True}) for v in sub["violations"])
                 out["sigs"].append(f"range:{'neg' if step < 0 else 'pos'}:{abs(step)}:{'empty' if len(range(start, stop, step)) == 0 else 'nonempty'}:{'negstart' if start < 0 else 'posstart'}")
     out["evaluations"] = n
     out["counters"]["range_grid_enumerated"] = n
